@@ -95,6 +95,15 @@ func setup(dir string, tmpl *cache.Cache, s scenario) {
 		put(s.Target, content('O', s.Size))
 	case "S2-same-content-again":
 		put(s.Target, nc)
+	case "S2-overwrite-empty":
+		// the index entry being overwritten in place records size 0
+		put(s.Target, nil)
+	case "S6-same-content-under-other-id":
+		// the output file is shared with an entry the failing Put did not create
+		put(2, nc)
+	case "S6-same-content-under-other-id-and-overwrite":
+		put(2, nc)
+		put(s.Target, content('O', s.Size+1))
 	case "S3-partial-output-0":
 		os.WriteFile(fileOf(dir, out, "d"), nil, 0o666)
 	case "S3-partial-output-1":
@@ -129,6 +138,11 @@ func scenarios(th bool) []scenario {
 	}
 	for _, st := range []string{"S0-empty", "S1-other-entries", "S2-overwrite-different-length", "S2-overwrite-same-length", "S2-same-content-again", "S5-index-present-output-trimmed"} {
 		for _, sz := range append(sizes, big) {
+			out = append(out, scenario{st, sz, false, 0})
+		}
+	}
+	for _, st := range []string{"S2-overwrite-empty", "S6-same-content-under-other-id", "S6-same-content-under-other-id-and-overwrite"} {
+		for _, sz := range []int{1, 40, big} {
 			out = append(out, scenario{st, sz, false, 0})
 		}
 	}
@@ -222,16 +236,26 @@ type runResult struct {
 	PutErr  error
 	Crashed bool
 	Pan     any
+	// StatFailed: an operation of the phase in which copyFile recognises an
+	// output that is already in place (Stat, read-only Open, Read: everything
+	// before the first open for writing) was made to fail, so Put could not
+	// know the shared output was intact and rewrote it in place
+	StatFailed bool
 }
 
 // runPut executes the faulted Put in dir and returns what happened.
 func runPut(dir string, tmpl *cache.Cache, s scenario, f fault) (res runResult) {
 	vos.Reset()
 	n := 0
+	sawWriteOpen := false
 	vos.Hook = func(op *vos.Op) vos.Verdict {
 		k := n
 		n++
 		res.Ops = append(res.Ops, op.Kind)
+		failing := f.Kind == "fail" && (k == f.K || k == f.K2)
+		if op.Kind == "open" && op.Flag&(os.O_WRONLY|os.O_RDWR) != 0 && !failing {
+			defer func() { sawWriteOpen = true }()
+		}
 		switch f.Kind {
 		case "crash":
 			if k == f.K {
@@ -244,6 +268,9 @@ func runPut(dir string, tmpl *cache.Cache, s scenario, f fault) (res runResult) 
 			}
 		case "fail":
 			if k == f.K || k == f.K2 {
+				if !sawWriteOpen {
+					res.StatFailed = true
+				}
 				return vos.Verdict{Fail: &os.PathError{Op: op.Kind, Path: op.Path, Err: syscall.EIO}}
 			}
 		case "short":
@@ -306,6 +333,19 @@ func oracle(dir string, tmpl *cache.Cache, s scenario, res runResult, srcFault b
 		if i == 1 { // the unrelated entry
 			if err != nil || !bytes.Equal(data, unrelated) {
 				return fmt.Sprintf("the unrelated entry B is no longer readable after the failed Put: %v", err)
+			}
+		}
+		if i == 2 && i != s.Target && !s.Damaged && !res.StatFailed {
+			// entries of another action id, stored before the faulted Put
+			var want []byte
+			switch {
+			case s.Start == "S1-other-entries":
+				want = content('V', 5)
+			case strings.HasPrefix(s.Start, "S6-"):
+				want = s.newContent()
+			}
+			if want != nil && (err != nil || !bytes.Equal(data, want)) {
+				return fmt.Sprintf("entry C (another action id, stored before and untouched by the failed Put, start state %s) is no longer readable: %v", s.Start, err)
 			}
 		}
 		if i == s.Target && res.PutErr == nil && !res.Crashed && !s.Damaged {
@@ -511,7 +551,8 @@ func main() {
 			fails++
 			report(s, fault{Kind: "fail", K: k, K2: -1}, v, res)
 			if base.Ops[k] == "write" || base.Ops[k] == "writeat" {
-				for _, j := range []int{1, 2, 37, s.Size - 2, s.Size / 2, 90} {
+				// 3/67/68/132/133/.../174 are the field boundaries of an index entry
+				for _, j := range []int{1, 2, 37, s.Size - 2, s.Size / 2, 90, 3, 67, 68, 132, 133, 140, 151, 152, 153, 154, 173, 174} {
 					if j <= 0 {
 						continue
 					}
